@@ -73,6 +73,10 @@ chk("C08", "chainsim", "exploration",
     CHAIN + "C08 monitors after every block import, slot tick, epoch boundary, deposit and upgrade on every node: the live EpochsContext (three shufflings with active sets and committees, proposers, effective balances, total active stake and its root, sync-committee indices and pubkeys, pubkey/index lookups of the whole registry) equals NewEpochsContext(state); every node reaches the same block by a different path (ticked state, multi-slot jump, state reloaded from bytes with a fresh context after a crash) and must give the same verdict and the same post-state root.",
     "Oracle is the from-scratch path of the same code plus cross-path agreement (a fault common to both paths needs the refspec checks of C01/C02/C07, not yet claimed).",
     SIM + "incremental-vs-from-scratch refinement along simulated histories with crash/restart and partition faults", "DESIGN.md section 6 C08")
+chk("C12", "chainsim", "exploration",
+    CHAIN + "C12: every message the simulated validators produce on all eight topics (blocks, single attestations with their subnet, aggregate-and-proofs with selection proofs, exits, proposer and attester slashings incl. votes whose signer sets only partly overlap, sync-committee messages per subnet, contribution-and-proofs) is offered to the real topic validator over a chain-view adapter on the simulated block tree, under the node's clock. Faults: duplicate delivery, clock skew on both sides of every window, messages about blocks the node has not seen yet, target state unavailable (Towards times out), node restart that loses the seen-caches followed by re-delivery of old blocks around the finalized slot, and one single-condition corruption per message (signatures of every layer, subnet, committee index, bit count, target epoch, aggregator outside the committee, validly signed non-proposer, other fork version, subcommittee index 4, no participants). Oracle (constructive: the harness knows which single condition it made fail): all conditions hold => ACCEPT; any fails => never ACCEPT; only a timing-class condition fails => IGNORE; any Mark* during a call that does not end in ACCEPT is a violation; the honest message after a refused corruption must still be ACCEPTed.",
+    "The chain view (beacon.Chain, entries, Towards) and the seen-caches are harness code on the simulated tree; REJECT vs IGNORE for validity-class failures is not checked (the property does not fix it); 'aggregator not selected' cannot be produced with committees below 32 members; the backend's domain getter follows the harness's fork schedule.",
+    SIM + "gossip-layer fault injection (duplicates, clock skew, unknown blocks, restarts, byzantine senders) with a constructive per-condition oracle", "DESIGN.md section 6 C12")
 chk("C14", "chainsim", "exploration",
     CHAIN + "C14 monitors at every state reached on every node under the run's fork schedule: Spec.ForkVersion(slot), ForkDecoder.ForkDigest(epoch), the Go type BlockAllocator(digest) yields, the state type after ProcessSlots, and state.fork (previous/current/epoch) all name the fork the harness's own schedule function names; bytes -> block -> envelope preserves root, signature and state root; blocks signed under the slot's version verify (they are imported with signature validation).",
     "PARTIAL: the lookup-agreement part is decided; 'a block signed under any other version does not verify' is only covered through C03-style faults once those are claimed; the built-in mainnet/minimal constant tables are compared with the harness's own table of 148 published constants at the start of every run (a data comparison, not a simulation; constants the author could not recall with certainty are left out).",
@@ -111,7 +115,7 @@ engines = [
  {"name": "cachesim", "path": "sim/cachesim", "serves_properties": ["C16"], "kind_free_text": "tree of deposit histories sharing real PubkeyCache handles vs. per-handle list model"},
  {"name": "poolsim", "path": "sim/poolsim", "serves_properties": ["C20"], "kind_free_text": "operation pools fed by faulty arrival histories vs. set/relation model"},
  {"name": "schedsim", "path": "sim/schedsim", "serves_properties": ["C17"], "kind_free_text": "seeded cooperative scheduler over real goroutines on shared components; race detector; porcupine"},
- {"name": "chainsim", "path": "sim/chainsim", "serves_properties": ["C01", "C02", "C03", "C04", "C05", "C07", "C08", "C13", "C14", "C15", "C18"], "kind_free_text": "simulated beacon network on the real state transition; metamorphic/self oracles + fault enumeration"},
+ {"name": "chainsim", "path": "sim/chainsim", "serves_properties": ["C01", "C02", "C03", "C04", "C05", "C07", "C08", "C12", "C13", "C14", "C15", "C18"], "kind_free_text": "simulated beacon network on the real state transition; metamorphic/self oracles + fault enumeration"},
  {"name": "refspec", "path": "sim/refspec", "serves_properties": ["C01", "C02", "C03", "C07", "C13"], "kind_free_text": "independent executable reference model of the consensus spec (oracle, not an engine)"},
  {"name": "fcsim", "path": "sim/fcsim", "serves_properties": ["C09", "C10", "C11"], "kind_free_text": "abstract block-tree histories on the real ProtoForkChoice/ProtoArray/ProtoVoteStore vs. naive GHOST + tree walk"},
 ]
